@@ -106,8 +106,9 @@ fn modulus_large(thorough: bool) -> BoxedStrategy<Nat> {
     Union::new_weighted(v).boxed()
 }
 
-/// shared-factor moduli m = g·l (elements are then built as multiples of g)
-fn modulus_with_factor() -> BoxedStrategy<(Nat, Nat)> {
+/// shared-factor moduli m = g·l (elements are then built as multiples of g); one in eight is a
+/// perfect square (l = g)
+fn modulus_with_factor() -> BoxedStrategy<(Nat, Nat, Nat)> {
     let factor = || {
         Union::new_weighted(vec![
             (2, Just(Nat(vec![1])).boxed()),
@@ -120,7 +121,12 @@ fn modulus_with_factor() -> BoxedStrategy<(Nat, Nat)> {
             (1, gen::nat_len(5, 12)),
         ])
     };
-    (factor(), factor()).prop_map(|(g, l)| (Nat::from_big(&(g.big() * l.big())), g)).boxed()
+    (factor(), factor(), 0u8..8)
+        .prop_map(|(g, l, sq)| {
+            let l = if sq == 0 { g.clone() } else { l };
+            (Nat::from_big(&(g.big() * l.big())), g, l)
+        })
+        .boxed()
 }
 
 fn exponent(rich: bool) -> BoxedStrategy<Nat> {
@@ -220,14 +226,22 @@ fn ring_case(modulus: BoxedStrategy<Nat>, rich_exp: bool) -> impl Strategy<Value
 }
 
 fn gcd_case() -> impl Strategy<Value = RingCase> {
-    (modulus_with_factor(), recipe(), recipe(), exponent(false), any::<bool>()).prop_map(|((m, g), ra, rb, e, b_free)| {
+    (modulus_with_factor(), recipe(), recipe(), exponent(false), any::<bool>(), 0u8..8).prop_map(|((m, g, l), ra, rb, e, b_free, shape)| {
         let nm = m.big();
         let lm = m.trimmed_len();
         let ng = g.big();
         let one = BigUint::one();
-        let a = elem(&nm, lm, &ra, None, &ng);
-        // b: either also a multiple of g (division by it must panic) or free
-        let b = elem(&nm, lm, &rb, Some(&a), if b_free { &one } else { &ng });
+        let (a, b) = match shape {
+            // the integer product a·b is the modulus itself (the "product needs one subtraction" path)
+            0 => (Int { neg: false, mag: g.clone() }, Int { neg: false, mag: l.clone() }),
+            1 => (Int { neg: ra.neg, mag: l.clone() }, Int { neg: rb.neg, mag: g.clone() }),
+            _ => {
+                let a = elem(&nm, lm, &ra, None, &ng);
+                // b: either also a multiple of g (division by it must panic) or free
+                let b = elem(&nm, lm, &rb, Some(&a), if b_free { &one } else { &ng });
+                (a, b)
+            }
+        };
         RingCase { a, b, e: cap_exponent(e, lm), m }
     })
 }
@@ -445,6 +459,12 @@ fn ring_ops(c: &RingCase, ctx: &Ctx) -> Out {
     if !ra.is_zero() && &ra + &rb == nm {
         out.label("pair:residues sum to m exactly");
     }
+    if &ra * &rb == nm {
+        out.label("pair:residues multiply to m exactly");
+    }
+    if &ra * &ra == nm {
+        out.label("elem:residue squared is m exactly");
+    }
 
     // ---------- into the ring: IBig, UBig (magnitude), IntoRing directly
     chk(&mut out, "reduce(IBig).residue", "a", &catch(|| ring.reduce(c.a.ibig()).residue()), &ra, &nm);
@@ -519,8 +539,8 @@ fn ring_ops(c: &RingCase, ctx: &Ctx) -> Out {
     chk(&mut out, "Reduced::pow(e+1)", "-", &catch(|| x.pow(&e1).residue()), &((&pw * &ra) % &nm), &nm);
 
     // ---------- inv, /
-    inv_div(&mut out, ctx, lm, "a", &x, &ra, &y, &rb, &nm);
-    inv_div(&mut out, ctx, lm, "b", &y, &rb, &x, &ra, &nm);
+    inv_div(&mut out, "a", &x, &ra, &y, &rb, &nm);
+    inv_div(&mut out, "b", &y, &rb, &x, &ra, &nm);
     out
 }
 
@@ -536,18 +556,7 @@ fn chk_plain(out: &mut Out, what: &str, got: &Result<UBig, String>, want: &BigUi
 }
 
 /// `d.inv()` and `n / d` in every form
-/// id of the recorded finding about wrong inverses in multi-word rings (root cause: the Euclidean
-/// step of gcd/lehmer.rs `gcd_ext_in_place` drops high words of a Bezout coefficient)
-const KF_INV: &str = "C13/inv-large-wrong-coefficient";
-
-/// call-site + input class of KF_INV: multi-word ring (>= 3 words), element of >= 3 words (the
-/// `gcd_ext_in_place` branch of `inv_large`), inverse exists, and what came back is a residue in
-/// range that is simply not the inverse. Panics, `None`, out-of-range values are not covered.
-fn kf_inv_class(lm: usize, rd: &BigUint, invertible: bool) -> bool {
-    lm >= 3 && invertible && rd.bits() > 128
-}
-
-fn inv_div(out: &mut Out, ctx: &Ctx, lm: usize, who: &str, d: &dashu_int::modular::Reduced, rd: &BigUint, n: &dashu_int::modular::Reduced, rn: &BigUint, nm: &BigUint) {
+fn inv_div(out: &mut Out, who: &str, d: &dashu_int::modular::Reduced, rd: &BigUint, n: &dashu_int::modular::Reduced, rn: &BigUint, nm: &BigUint) {
     let g = rd.gcd(nm);
     let invertible = g.is_one();
     out.label(if invertible {
@@ -558,7 +567,6 @@ fn inv_div(out: &mut Out, ctx: &Ctx, lm: usize, who: &str, d: &dashu_int::modula
         "inv:none (gcd > 1)"
     });
     let one = BigUint::one() % nm;
-    let mut inv_known_bad = false;
     match catch(|| d.inv().map(|v| v.residue())) {
         Err(m) => out.fail(format!("Reduced::inv [{who}]: unexpected panic {}", normalise(&m))),
         Ok(None) => {
@@ -573,12 +581,7 @@ fn inv_div(out: &mut Out, ctx: &Ctx, lm: usize, who: &str, d: &dashu_int::modula
             } else if &v >= nm {
                 out.fail(format!("Reduced::inv [{who}]: residue {} outside [0, m), m = {}", show_u(&v), show_u(nm)));
             } else if (rd * &v) % nm != one {
-                if kf_inv_class(lm, rd, invertible) {
-                    inv_known_bad = true;
-                    ctx.known_or_fail(out, KF_INV, || format!("Reduced::inv [{who}]: {} * {} is not 1 (mod {})", show_u(rd), show_u(&v), show_u(nm)));
-                } else {
-                    out.fail(format!("Reduced::inv [{who}]: {} * {} is not 1 (mod {})", show_u(rd), show_u(&v), show_u(nm)));
-                }
+                out.fail(format!("Reduced::inv [{who}]: {} * {} is not 1 (mod {})", show_u(rd), show_u(&v), show_u(nm)));
             }
         }
     }
@@ -591,9 +594,6 @@ fn inv_div(out: &mut Out, ctx: &Ctx, lm: usize, who: &str, d: &dashu_int::modula
                     let q = u2n(q);
                     if &q >= nm {
                         out.fail(format!("{what} [{form}]: residue {} outside [0, m), m = {}", show_u(&q), show_u(nm)));
-                    } else if (&q * rd) % nm != *rn && inv_known_bad {
-                        // division multiplies by the inverse that was just seen to be wrong
-                        ctx.known_or_fail(out, KF_INV, || format!("{what} [{form}]: quotient {} times divisor {} is not {} (mod {})", show_u(&q), show_u(rd), show_u(rn), show_u(nm)));
                     } else if (&q * rd) % nm != *rn {
                         out.fail(format!("{what} [{form}]: quotient {} times divisor {} is not {} (mod {})", show_u(&q), show_u(rd), show_u(rn), show_u(nm)));
                     }
@@ -710,11 +710,7 @@ fn reducer_ops(c: &RingCase, ctx: &Ctx) -> Out {
                         if v >= nm {
                             out.fail(format!("Reducer::inv: residue {} outside [0, m), m = {}", show_u(&v), show_u(&nm)));
                         } else if (&ra * &v) % &nm != BigUint::one() % &nm {
-                            if kf_inv_class(lm, &ra, invertible) {
-                                ctx.known_or_fail(&mut out, KF_INV, || format!("Reducer::inv: {} * {} is not 1 (mod {})", show_u(&ra), show_u(&v), show_u(&nm)));
-                            } else {
-                                out.fail(format!("Reducer::inv: {} * {} is not 1 (mod {})", show_u(&ra), show_u(&v), show_u(&nm)));
-                            }
+                            out.fail(format!("Reducer::inv: {} * {} is not 1 (mod {})", show_u(&ra), show_u(&v), show_u(&nm)));
                         }
                     }
                 }
@@ -872,7 +868,7 @@ fn main() {
     ck.sub(
         "reducer",
         (14_000, 420_000),
-        move || ring_case(prop_oneof![3 => modulus_small(), 3 => modulus_large(th), 1 => modulus_with_factor().prop_map(|(m, _)| m)].boxed(), true),
+        move || ring_case(prop_oneof![3 => modulus_small(), 3 => modulus_large(th), 1 => modulus_with_factor().prop_map(|(m, _, _)| m)].boxed(), true),
         reducer_ops,
     );
     ck.sub(
